@@ -1105,7 +1105,9 @@ fn get_wrapping_or_insert<'w, D: TextDecorator>(
 ) -> &'w mut WrappedBlock<Vec<D::Annotation>> {
     wrapping.get_or_insert_with(|| {
         let wwidth = match options.wrap_width {
-            Some(ww) => ww.min(width),
+            // A wrap width of zero can't hold any text (and wrapping would never
+            // make progress), so use at least one column.
+            Some(ww) => ww.max(1).min(width),
             None => width,
         };
         WrappedBlock::new(
